@@ -256,6 +256,7 @@ type Crash struct{}
 
 type FS struct {
 	DBs     map[string]*Store
+	Order   []string // names in creation order (deterministic Names())
 	Steps   int
 	CrashAt int // -1: never
 }
@@ -290,13 +291,14 @@ func (fs *FS) OpenDB(name string) (kvdb.Store, error) {
 		st = New()
 		st.OnStep = fs.step
 		fs.DBs[name] = st
+		fs.Order = append(fs.Order, name)
 	}
 	return &fsStore{st, fs, name}, nil
 }
 
 func (fs *FS) Names() []string {
 	var res []string
-	for _, n := range []string{"A", "B", "C"} { // deterministic order over the names the harnesses use
+	for _, n := range fs.Order {
 		if _, ok := fs.DBs[n]; ok {
 			res = append(res, n)
 		}
@@ -328,5 +330,18 @@ func (fs *FS) Reopen() *FS {
 		c.OnStep = r.step
 		r.DBs[n] = c
 	}
+	for _, n := range fs.Order {
+		if _, ok := r.DBs[n]; ok {
+			r.Order = append(r.Order, n)
+		}
+	}
 	return r
 }
+
+// FullProducer adapts an FS to kvdb.FullDBProducer (flushes are no-ops: the stores are durable at once).
+type FullProducer struct{ *FS }
+
+func (p FullProducer) NotFlushedSizeEst() int                           { return 0 }
+func (p FullProducer) Flush(id []byte) error                            { return nil }
+func (p FullProducer) Initialize(n []string, id []byte) ([]byte, error) { return id, nil }
+func (p FullProducer) Close() error                                     { return nil }
